@@ -60,7 +60,7 @@ def nonanticipative_case(N, T, ul_kind, deriv_kind, inputs, model_kind, H=1, xmo
             nonneg = nm == "volatility"
             A[nm] = api.tensor(c, "A." + nm, (N, T), pos=pos, nonneg=nonneg)
             B[nm] = api.tensor(c, "B." + nm, (N, T), pos=pos, nonneg=nonneg)
-        feats = [cm.make_feature(c, f) if isinstance(f, str) and f in ("barrier_up", "barrier_down", "underlier_log_spot", "module_output") else f
+        feats = [cm.make_feature(c, f) if isinstance(f, str) and f in ("barrier_up", "barrier_down", "underlier_log_spot", "module_output", "module_output_max") else f
                  for f in inputs]
         stepwise = "prev_hedge" in inputs
 
@@ -138,6 +138,11 @@ def cases():
                    bounds="N=1 T=4"))
     cs.append(Case("list/stepwise/linear", nonanticipative_case(1, 4, "brownian", "european", full + ["prev_hedge"], "linear", controls=True),
                    encodes=enc, bounds="N=1 T=4"))
+    cs.append(Case("list/stepwise/uf/module-over-running-max", nonanticipative_case(2, 4, "brownian", "lookback", ["module_output_max", "prev_hedge"], "uf",
+                                                                      controls=True), encodes=enc,
+                   bounds="N=2 T=4; ModuleOutput over max_log_moneyness/max_moneyness, same hedger re-evaluated on every perturbed future"))
+    cs.append(Case("list/vectorised/uf/module-over-running-max", nonanticipative_case(2, 4, "brownian", "lookback", ["module_output_max"], "uf",
+                                                                        controls=True), encodes=enc, bounds="N=2 T=4"))
     cs.append(Case("naked", nonanticipative_case(1, 3, "brownian", "european", ["empty"], "naked"), encodes=enc, bounds="N=1 T=3"))
     for dk in ("european", "lookback", "european_binary", "american_binary"):
         xm = dk in ("european", "european_binary")  # analytic deltas: extended reals; autogreek deltas: exact reals with
